@@ -13,6 +13,9 @@ From Coq Require Import ZArith List Bool.
 From DV Require Import Model.PyPrims Model.Tree Model.C08Model.
 From DV Require Import Proofs.C08Base Proofs.C08InPlace Proofs.C08Prune Proofs.C08Extract Proofs.C08Spec
      Proofs.C08Dist Proofs.C08Final Proofs.C08Thms.
+From DV Require Import Model.C08Spec2 Model.C08Loop Proofs.C08Order Proofs.C08More Proofs.C08Child Proofs.C08Lazy
+     Proofs.C08Machine Proofs.C08Link.
+From DV Require Model.Heap Model.HeapOps Proofs.C03Base.
 Import ListNotations.
 Open Scope Z_scope.
 
@@ -351,3 +354,196 @@ Theorem example_distance :
   dist 2 4 (T 0 None None (Some 5120) [T 2 (Some 0) None (Some 4096) []; T 4 (Some 2) None (Some 4096) []]) = Some 8192.
 Proof. exact ex_dist. Qed.
 Print Assumptions example_distance.
+
+(* ======================================================================================== *)
+(* second wave                                                                              *)
+(* ======================================================================================== *)
+
+(* 14. ORDER of the returned node list.  rnd bad n (Model/C08Spec2.v) is the pass in which node n
+       goes: 1 for a rejected leaf, 1 + the latest pass of its children for a rejected node that
+       loses all children, 0 if it stays.  The list is: pass 1, pass 2, ... and inside each pass the
+       iteration (post-)order of the tree - which for the nodes of one pass is the leaf order of the
+       tree at pass entry.  (removal_order bad t = flat_map (fun k => level bad k t) (seq 1 (size t)),
+       level bad k t = ids of the nodes n of postorder t with rnd bad n = k.) *)
+Theorem removed_reported_order :
+  forall (ok : list Z) (upd_bip sup : bool) (t : tree) (rooted : option bool) (ret : list Z) (t' : tree) (r' : option bool),
+    NoDup (ids t) ->
+    filter_leaf_nodes ok true upd_bip sup (t, rooted) = IOk (ret, t', r') ->
+    ret = flat_map (fun k => map t_id (filter (fun n => Nat.eqb (rnd (fun i _ => negb (memz i ok)) n) k) (postorder t)))
+                   (seq 1 (size t)).
+Proof. exact filter_removed_order. Qed.
+Print Assumptions removed_reported_order.
+
+Theorem removed_reported_order_without_taxa :
+  forall (upd_bip sup : bool) (t : tree) (rooted : option bool) (ret : list Z) (t' : tree) (r' : option bool),
+    NoDup (ids t) ->
+    prune_leaves_without_taxa true upd_bip sup (t, rooted) = IOk (ret, t', r') ->
+    ret = flat_map (fun k => map t_id (filter (fun n => Nat.eqb (rnd no_taxon n) k) (postorder t))) (seq 1 (size t)).
+Proof. exact plwt_removed_order. Qed.
+Print Assumptions removed_reported_order_without_taxa.
+
+(* the first pass is exactly the rejected leaves in leaf order *)
+Theorem removed_first_pass_is_leaf_order :
+  forall (bad : npred) (t : tree),
+    map t_id (filter (fun n => Nat.eqb (rnd bad n) 1) (postorder t)) = map t_id (filter (app_np bad) (leaves t)).
+Proof. exact level_one. Qed.
+Print Assumptions removed_first_pass_is_leaf_order.
+
+Theorem example_removal_order :
+  removal_order (fun i _ => negb (memz i [4])) ex_tree = [2; 3; 1].
+Proof. exact ex_removal_order. Qed.
+Print Assumptions example_removal_order.
+
+(* 15. filter_leaf_nodes(recursive=False): one pass; emptied parents stay (keepe = np_true);
+       the returned list is the rejected leaves in leaf order; a rejected single-node tree raises *)
+Theorem filter_leaf_nodes_nonrecursive :
+  forall (ok : list Z) (upd_bip sup : bool) (t : tree) (rooted : option bool),
+    NoDup (ids t) ->
+    filter_leaf_nodes ok false upd_bip sup (t, rooted) =
+    match restrictG sup (keep_ids ok) np_true np_true t with
+    | Some r => IOk (map t_id (filter (fun n => negb (memz (t_id n) ok)) (leaves t)),
+                     fst (if upd_bip then encode_effect sup rooted r else (r, rooted)),
+                     snd (if upd_bip then encode_effect sup rooted r else (r, rooted)))
+    | None => IErr ESeedDel t
+    end.
+Proof. exact filter_nonrecursive_spec. Qed.
+Print Assumptions filter_leaf_nodes_nonrecursive.
+
+(* 16. Node.extract_subtree called on a node that has a parent: the restriction, unless the start
+       node itself is filtered out, emptied or merged into its only child - then ValueError
+       (the "TODO: find a replacement node" branch); never SeedNodeDeletionException *)
+Theorem extract_subtree_on_inner_node :
+  forall (flt : xfilter) (sup : bool) (t : tree),
+    NoDup (ids t) ->
+    extract_subtree flt sup true t =
+    match restrictG sup
+            (fun i _ => match flt with None => true | Some (lfl, _, oks) => negb (lfl && negb (memz i oks)) end)
+            (fun i _ => match flt with None => true | Some (_, intl, oks) => negb (intl && negb (memz i oks)) end)
+            np_false t with
+    | Some r => if Z.eqb (t_id r) (t_id t) then XOk r else XErr EValue
+    | None => XErr EValue
+    end.
+Proof. exact extract_subtree_inner_spec. Qed.
+Print Assumptions extract_subtree_on_inner_node.
+
+(* 17. Node.remove_child.  Plain mode: the subtree goes, nothing else (restrictG with emptied parents
+       kept); errors leave the tree alone; suppressing mode = the plain result followed by a local
+       repair at the node that lost the child (splice_try / root_absorb_try, Model/C08Spec2.v) *)
+Theorem remove_child_plain_is_restrictG :
+  forall (par : Z) (p c t : tree) (rooted : option bool),
+    NoDup (ids t) -> find par t = Some p -> In c (t_kids p) ->
+    remove_child par (t_id c) false (t, rooted) = IOk ([t_id c], upd_below rm_f (t_id c) t, rooted) /\
+    restrictG false (fun i _ => negb (Z.eqb i (t_id c))) (fun i _ => negb (Z.eqb i (t_id c))) np_true t
+    = Some (upd_below rm_f (t_id c) t).
+Proof. exact remove_child_plain. Qed.
+Print Assumptions remove_child_plain_is_restrictG.
+
+Theorem remove_child_value_errors :
+  forall (par id : Z) (suppress : bool) (t : tree) (rooted : option bool),
+    (find par t = None \/
+     exists p, find par t = Some p /\ existsb (fun k => Z.eqb (t_id k) id) (t_kids p) = false) ->
+    remove_child par id suppress (t, rooted) = IErr EValue t.
+Proof. exact remove_child_errors. Qed.
+Print Assumptions remove_child_value_errors.
+
+Theorem remove_child_suppressing :
+  forall (par : Z) (p c t : tree) (rooted : option bool),
+    NoDup (ids t) -> find par t = Some p -> In c (t_kids p) ->
+    remove_child par (t_id c) true (t, rooted) =
+    IOk ([t_id c],
+         (if Z.eqb (t_id t) par then root_absorb_try (upd_below rm_f (t_id c) t)
+          else upd_below splice_try par (upd_below rm_f (t_id c) t)),
+         rooted).
+Proof. exact remove_child_suppress. Qed.
+Print Assumptions remove_child_suppressing.
+
+(* 18. prune_subtree(c) is the induced subtree of the leaves outside c exactly when c's parent keeps
+       another child; with an only child the two differ (the known finding's domain) *)
+Theorem prune_subtree_is_restrict :
+  forall (c p : tree) (upd_bip sup : bool) (t : tree) (rooted : option bool),
+    NoDup (ids t) -> In p (preorder t) -> In c (t_kids p) -> (2 <= length (t_kids p))%nat ->
+    exists r, restrict sup (fun i _ => negb (memz i (ids c))) t = Some r /\
+              prune_subtree (t_id c) upd_bip sup (t, rooted) =
+              IOk ([], fst (if upd_bip then encode_effect sup rooted r else (r, rooted)),
+                       snd (if upd_bip then encode_effect sup rooted r else (r, rooted))).
+Proof. exact prune_subtree_is_restrict_thm. Qed.
+Print Assumptions prune_subtree_is_restrict.
+
+Theorem prune_subtree_only_child_is_not_restrict :
+  forall (sup : bool) (c p : tree), t_kids p = [c] ->
+    forall t, NoDup (ids t) -> In p (preorder t) ->
+    restrictG sup (fun i _ => negb (Z.eqb i (t_id c))) (fun i _ => negb (Z.eqb i (t_id c))) np_true t
+    <> restrict sup (fun i _ => negb (memz i (ids c))) t.
+Proof. exact prune_subtree_restrict_neq. Qed.
+Print Assumptions prune_subtree_only_child_is_not_restrict.
+
+(* 19. the lazy iterators: when the library's post-order iterator is about to expand node m - exactly
+       the nodes before m's block of the post-order have been yielded and the loop body has run on
+       them - the subtree of m is still what it was at loop entry, for every loop body `upd f` whose f
+       only rebuilds from the subtree it is given.  Hence every child list the iterator reads is the
+       original one and (Props/C15.v, postorder_iter_spec) it yields the post-order at loop entry. *)
+Theorem lazy_iteration_reads_original_subtrees :
+  forall (f : tree -> list tree),
+    (forall n a, In a (flat_map ids (f n)) -> In a (ids n)) ->
+    forall t, NoDup (ids t) ->
+    forall m, In m (preorder t) ->
+    exists L1 L2, post_ids t = L1 ++ post_ids m ++ L2 /\
+                  In m (flat_map preorder (fold_left (fun F id => updF f id F) L1 [t])).
+Proof. exact unvisited_block_intact. Qed.
+Print Assumptions lazy_iteration_reads_original_subtrees.
+
+(* 20. link to the pointer level: the heap program Model/HeapOps.v prune_subtree (C03) ends in a heap
+       whose abstraction is what the C08 transcription computes, i.e. restrictG - and the induced
+       subtree proper when the parent keeps another child *)
+Theorem heap_prune_subtree_is_restrictG :
+  forall (ub su : bool) (h : Heap.heap) (t : tree) (n : Z),
+    C03Base.WF h -> Heap.abs h = Some t -> In n (ids t) -> n <> Heap.seed h ->
+    exists h' t' r',
+      HeapOps.prune_subtree n ub su h = Heap.HOk h' /\ C03Base.WF h' /\ Heap.abs h' = Some t' /\
+      prune_subtree n ub su (t, Heap.rooted h) = IOk ([], t', r') /\
+      exists r, restrictG su (fun i _ => negb (Z.eqb i n)) (fun i _ => negb (Z.eqb i n)) np_true t = Some r /\
+                t' = fst (if ub then encode_effect su (Heap.rooted h) r else (r, Heap.rooted h)).
+Proof. exact heap_prune_subtree_link. Qed.
+Print Assumptions heap_prune_subtree_is_restrictG.
+
+Theorem heap_prune_subtree_is_restrict :
+  forall (ub su : bool) (h : Heap.heap) (t c p : tree),
+    C03Base.WF h -> Heap.abs h = Some t -> In p (preorder t) -> In c (t_kids p) -> (2 <= length (t_kids p))%nat ->
+    exists h' r,
+      HeapOps.prune_subtree (t_id c) ub su h = Heap.HOk h' /\ C03Base.WF h' /\
+      restrict su (fun i _ => negb (memz i (ids c))) t = Some r /\
+      Heap.abs h' = Some (fst (if ub then encode_effect su (Heap.rooted h) r else (r, Heap.rooted h))).
+Proof. exact heap_prune_subtree_restrict. Qed.
+Print Assumptions heap_prune_subtree_is_restrict.
+
+(* 21. the lazy iterator itself.  lazy_run (Model/C08Loop.v) runs the post-order machine GENERATED
+       FROM THE LIBRARY SOURCE (Gen/Traversals.v, Node_postorder_iter_step) over the object graph of
+       the current forest and applies the loop body to every node the moment it is yielded, before
+       the machine is resumed.  For every body that is the pointer-level update `upd f` below the seed
+       (f rebuilding only from the subtree it is given, keeping ids distinct) and anything at the
+       seed: the machine yields the post-order of the tree AT LOOP ENTRY, does not run out of fuel
+       2*size+1, and the final forest is the one the list-loop of the transcription computes. *)
+Theorem lazy_postorder_loop_is_list_loop :
+  forall (f : tree -> list tree) (body : list tree -> Z -> list tree) (root : Z),
+    (forall n a, In a (flat_map ids (f n)) -> In a (ids n)) ->
+    (forall n, NoDup (ids n) -> NoDup (flat_map ids (f n))) ->
+    (forall F a, a <> root -> body F a = updF f a F) ->
+    forall t, t_id t = root -> NoDup (ids t) ->
+    lazy_run body (2 * size t + 1) [t] [(t_id t, false)] =
+    Some (body (fold_left (fun F id => updF f id F) (flat_map post_ids (t_kids t)) [t]) root, post_ids t).
+Proof. exact lazy_loop_is_list_loop. Qed.
+Print Assumptions lazy_postorder_loop_is_list_loop.
+
+(* ... instantiated for the two loops of the anchored code that mutate while iterating *)
+Theorem lazy_suppress_unifurcations :
+  forall t, NoDup (ids t) ->
+    lazy_run su_body (2 * size t + 1) [t] [(t_id t, false)] = Some ([fst (su_run t)], post_ids t).
+Proof. exact lazy_suppress_unifurcations_loop. Qed.
+Print Assumptions lazy_suppress_unifurcations.
+
+Theorem lazy_prune_taxa_first_loop :
+  forall (lf intn : bool) (taxa : list Z) (t : tree), NoDup (ids t) ->
+    lazy_run (p1_body lf intn taxa (t_id t)) (2 * size t + 1) [t] [(t_id t, false)] =
+    Some ([ires_tree (prune_phase1 lf intn taxa t) t], post_ids t).
+Proof. exact lazy_prune_taxa_loop. Qed.
+Print Assumptions lazy_prune_taxa_first_loop.
